@@ -3,7 +3,7 @@ import os, sys, json
 sys.path.insert(0, os.path.dirname(os.path.abspath(__file__)))
 import vlib
 
-BAD_CHAIN = ("untrusted", "fakeroot", "expired", "notyet", "caexpired", "issuernotca", "issuernobc", "badsig", "cabadsig",
+BAD_CHAIN = ("untrusted", "fakeroot", "fakerootsent", "fakeroot1", "expired", "notyet", "caexpired", "issuernotca", "issuernobc", "badsig", "cabadsig",
              "wrongissuerkey", "leafku", "pathlen", "encbadsig", "encexpired")
 
 
@@ -27,10 +27,15 @@ def annotate(events):
 
 def ensure_creds():
     d = os.path.join(vlib.BUILD, "creds")
-    if not os.path.exists(os.path.join(d, "STAMP")):
+    import hashlib
+    want = hashlib.sha1(open(os.path.join(vlib.VERIF, "tools", "mkcreds.py"), "rb").read()).hexdigest()
+    stamp = os.path.join(d, "STAMP")
+    if not os.path.exists(stamp) or open(stamp).read().strip() != want:      # (re)built when the generator changes
         r = vlib.sh([sys.executable, os.path.join(vlib.VERIF, "tools", "mkcreds.py"), d])
         if r.returncode != 0:
             raise RuntimeError("mkcreds failed: " + r.stderr[-2000:])
+        with open(stamp, "w") as f:
+            f.write(want + "\n")
     return d
 
 
